@@ -447,6 +447,8 @@ def align_variable_names_with_convention(
     preserve = frozenset(preserve) | {
         name for node in core.walk(ast_tree, (ast.Global, ast.Nonlocal)) for name in node.names
     }
+    # Parameters are not renamed, so neither are the assignments to them in the function body
+    preserve |= {node.arg for node in core.walk(ast_tree, ast.arg)}
     renamings = collections.defaultdict(set)
     classdefs: List[ast.ClassDef] = []
     funcdefs: List[ast.FunctionDef] = []
